@@ -883,6 +883,10 @@ def translate(repo):
         tree = ast.fix_missing_locations(pynorm.int_idioms(tree))   # `>= 1 << 8k`, `x.to_bytes`, `data.append(b)`
         tree = ast.fix_missing_locations(pynorm.push_alias_into_branches(tree))   # `children = dec` / `children = dec[tag] = {}`
         fns = check_module(tree)
+        # a branch for an argument form the documented kind does not include (hex text for `data`, a non-Mapping for `tlv`)
+        pynorm.fold_isinstance_of_parameters(fns["decode"], {"data": "bytes"})
+        pynorm.fold_isinstance_of_parameters(fns["encode"], {"tlv": "mapping"})
+        ast.fix_missing_locations(tree)
     except Unsupported as e:
         fns = None
         failures["decode"] = failures["encode"] = str(e)
